@@ -202,6 +202,22 @@ def _do(kind, st, o):
         elif code == 107: p.pdu_header.set_entity_ids(_ubf(g(r, 0), g(r, 1)), _ubf(g(r, 2), g(r, 3)))
         elif code == 108: p.pdu_header.segment_metadata_flag = h5._e(D.SegmentMetadataFlag, v)
         elif code == 109: p.pdu_header.pdu_type = h5._e(D.PduType, v)
+        elif code == 110:
+            # the value of one byte-field object edited IN PLACE: the PDU is packed, then <field>.value = new value.  While
+            # the field object is still the caller's (the constructor's copy of the PduConfig is shallow) the PDU first
+            # gets an object of its own with the same value and width
+            if v not in (0, 1, 2):
+                raise RuntimeError("bad field")
+            c = p.pdu_header.pdu_conf
+            f = getattr(c, h5._FIELD_ATTR[v])
+            if f is getattr(st.conf, h5._FIELD_ATTR[v]):
+                f = UnsignedByteField(f.value, f.byte_len)
+                setattr(c, h5._FIELD_ATTR[v], f)
+            try:
+                p.pack()
+            except Exception:  # noqa  (whatever the current values pack to is observed by the operations 120)
+                pass
+            f.value = g(r, 1)
         elif code == 120: return _pack(p)
         elif code == 121: return [p.packet_len, p.pdu_data_field_len, p.header_len]
         elif code == 130:
@@ -807,6 +823,9 @@ def v_step(v, o):
             w.ids[0:4] = [g(r, 0), g(r, 1), g(r, 2), g(r, 3)]
         elif code == 108: w.meta = x
         elif code == 109: w.ptype = x
+        elif code == 110:
+            refuse = not (x in (0, 1, 2) and 0 <= g(r, 1) < 256 ** w.ids[2 * x + 1])
+            if x in (0, 1, 2): w.ids[2 * x] = g(r, 1)
         elif code == 130: w.cflags[x if 0 <= x <= 3 else 4] = g(r, 1)
         elif code == 131:
             refuse = not h5.ubf_ok(x, g(r, 1)); w.cids[4], w.cids[5] = x, g(r, 1)
@@ -1047,6 +1066,9 @@ def gen_generic(rng, v_large=None):
     if r < 0.71:
         w = rng.choice(WIDTHS); w2 = w if rng.random() < 0.8 else rng.choice(WIDTHS)
         return [107, rng.randrange(256 ** w), w, rng.randrange(256 ** w2), w2]
+    if r < 0.715:
+        which = rng.randrange(3)
+        return [110, which, rng.choice([0, 1, 255, 256, 2 ** 16, 2 ** 32 - 1, 2 ** 32, 2 ** 61, 2 ** 64 - 1, 2 ** 64, -1, rng.randrange(2 ** 64)])]
     if r < 0.73: return [108, rng.randrange(2)]
     if r < 0.75: return [109, rng.randrange(2)]
     if r < 0.84: return [120]
@@ -1130,12 +1152,31 @@ def gen_specific(kind, rng, large):
     return [4, rng.choice([0, 11, 4, 6])]
 
 
+def collision_burst(rng):
+    """one 8-octet ID / sequence-number object of the PDU edited in place along values CPython hashes alike (c05.colliding),
+    the PDU packed after every step"""
+    v = rng.choice(h5.COLL_SEEDS + [rng.randrange(h5.M61), rng.randrange(2 ** 64)])
+    chain = [v] + rng.sample(h5.colliding(v), rng.randrange(1, 4))
+    if rng.random() < 0.5:
+        which = 2
+        ops = [[106, rng.choice(h5.COLL_SEEDS), 8]]
+    else:
+        which = rng.randrange(2)
+        ops = [[107, rng.choice(h5.COLL_SEEDS), 8, rng.choice(h5.COLL_SEEDS), 8]]
+    ops.append([120])
+    for x in chain:
+        ops += [[110, which, x], [120]]
+    return ops
+
+
 def gen_ops(kind, rng, large, n=None):
     n = rng.randrange(0, 11) if n is None else n
     ops = []
     p_spec = {"eof": 0.55, "ack": 0.4, "prompt": 0.3, "ka": 0.35, "nak": 0.7, "md": 0.7, "fin": 0.7}[kind]
     for _ in range(n):
-        if ops and rng.random() < 0.08:
+        if rng.random() < 0.04:
+            ops += collision_burst(rng)
+        elif ops and rng.random() < 0.08:
             ops.append(list(ops[-1]))                       # the same assignment twice
         elif ops and kind in ("eof", "fin") and ops[-1][0] == 1 and rng.random() < 0.5:
             # an entity ID that compares equal (EntityIdTlv.__eq__ is numerical) but has another length
